@@ -19,7 +19,7 @@ Proof.
   split_if. f_equal; [apply Hf; assumption | apply IH; assumption].
 Qed.
 Lemma dgram_eqb_sound a b : dgram_eqb a b = true -> a = b.
-Proof. destruct a, b; cbn; congruence. Qed.
+Proof. destruct a, b; cbn; try congruence; intros H; apply N.eqb_eq in H; congruence. Qed.
 Lemma role_eqb_sound a b : role_eqb a b = true -> a = b.
 Proof. destruct a, b; cbn; congruence. Qed.
 Lemma fname_eqb_sound a b : fname_eqb a b = true -> a = b.
@@ -144,12 +144,16 @@ Definition forgotten_ok (cfg : list acfg) (s : state) : bool :=
                     | Some a => negb (is_done a) || negb (in_map s i)
                     | None => true
                     end) (seq 0 (List.length cfg)).
-(* every connection the node created has removed all its sessions and is gone from pConns *)
+(* every connection the node created is gone from pConns, its store is empty, and every session ever installed for
+   it (configured or established by a request in flight) has exactly one delete command *)
 Definition all_clean (cfg : list acfg) (s : state) : bool :=
   forallb (fun i => match nth_error cfg i, nth_error (s_asc s) i with
                     | Some c, Some a =>
                       negb (in_map s i)
-                      && (negb (crt a) || (list_eqb N.eqb (a_del a) (c_sess c) && is_nil (a_store a)))
+                      && (negb (crt a)
+                          || (is_nil (a_store a) && Nat.eqb (List.length (a_del a)) (List.length (a_inst a))
+                              && forallb (fun x => Nat.eqb (count x (a_del a)) 1) (a_inst a)
+                              && forallb (fun x => memN x (a_inst a)) (c_sess c)))
                     | _, _ => true
                     end) (seq 0 (List.length cfg)).
 
